@@ -30,6 +30,11 @@ RELEVANT = {
 
 def relevant_checks(patch, prop):
     import re
+    if MODE == 'owner':
+        return [prop] if prop in ALL else ['C07']
+    if MODE == 'fragile':
+        files = set(re.findall(r'^\+\+\+ b/src/kyupy/(\S+)', open(patch).read(), flags=re.M))
+        return [c for c in ('C07', 'C08') if c != prop] if files & {'sim.py', 'logic_sim.py', 'wave_sim.py', '__init__.py'} or any(f.startswith('_') for f in files) else []
     files = set(re.findall(r'^\+\+\+ b/src/kyupy/(\S+)', open(patch).read(), flags=re.M))
     out = {prop} if prop in ALL else set()
     for f in files:
@@ -137,10 +142,12 @@ def rerun(filters, tier, checks):
 
 
 RELEVANT_ONLY = False
+MODE = 'relevant'
 
 if __name__ == '__main__':
     a = sys.argv[1:]
-    RELEVANT_ONLY = '--relevant' in a
+    RELEVANT_ONLY = '--relevant' in a or '--owner' in a or '--fragile' in a
+    MODE = 'owner' if '--owner' in a else ('fragile' if '--fragile' in a else 'relevant')
     tier = a[a.index('--tier') + 1] if '--tier' in a else 'quick'
     checks = a[a.index('--checks') + 1].split(',') if '--checks' in a else ALL
     if a and a[0] == 'add':
